@@ -206,7 +206,7 @@ def cases(rng, tier):
                     dt = dts[(k + rng.randrange(4)) % 4]
                     Dmax = 3 if d ** L <= 81 else 2
                     out.append(make_case(rng, L, d, dt, sectors, herm=(k % 3 == 0), force1=(k % 5 == 0), Dmax=Dmax))
-    n = {'quick': 110, 'thorough': 600, 'search': 60}[tier]
+    n = {'quick': 220, 'thorough': 600, 'search': 60}[tier]
     for _ in range(n):
         L = rng.choice([1, 2, 2, 3, 3, 4, 5])
         d = rng.choice([1, 2, 2, 3]) if L <= 4 else rng.choice([1, 2])
